@@ -213,15 +213,25 @@ class Operation(ABC):
             backed_grad = self.grad_post_process_fn(backed_grad, var.shape)
             assert backed_grad.shape == var.shape, (backed_grad.shape, var.shape)
             if var._grad is None:
-                backed_grad = (
-                    np.copy(backed_grad)
+                data = var.data
+                # Views of `var` obtain their gradients by replaying their view-op on this
+                # array; the replay is only guaranteed to be a view itself if the gradient
+                # has the memory layout of the tensor's data (e.g. a Fortran-ordered
+                # gradient of a C-ordered tensor cannot be raveled without a copy)
+                same_layout = (
+                    backed_grad.flags.c_contiguous and data.flags.c_contiguous
+                ) or (backed_grad.flags.f_contiguous and data.flags.f_contiguous)
+                if (
                     # `backed_grad` is view of grad; we want to be able to
                     # augment tmp-grad inplace later
-                    if backed_grad.base is not None or (backed_grad is grad)
-                    else backed_grad
-                )
-                if backed_grad.dtype != var.dtype:
-                    backed_grad = backed_grad.astype(var.dtype, copy=False)
+                    backed_grad.base is not None
+                    or (backed_grad is grad)
+                    or backed_grad.dtype != var.dtype
+                    or not same_layout
+                ):
+                    tmp = np.empty_like(data, dtype=var.dtype)
+                    tmp[...] = backed_grad
+                    backed_grad = tmp
 
                 var._grad = backed_grad
             else:
